@@ -33,6 +33,7 @@ def main():
     P = parsers()
     rng = random.Random(req["seed"] ^ 0xC06)
     out = []
+    held = []                              # decoded results kept while later responses are decoded (read A, read B, ... write A)
     cases = spec_resp.cases(random.Random(req["seed"]), req["n_each"], trail=False)
     for i, c in enumerate(cases):
         if c["fmt"] not in PAIRS:
@@ -80,8 +81,21 @@ def main():
                     if b3 != bytes(want):
                         k = next((j for j in range(min(len(b3), len(want))) if b3[j] != want[j]), 0)
                         r["why"] = "read-modify-write of %s: byte %d differs although it is outside the field (or the field was not updated)" % (key, k)
+            if r["why"] is None:
+                held.append((i, c["fmt"], cls, d, b2))
         except Exception as e:  # noqa
             r["why"] = "raised %s: %s" % (type(e).__name__, str(e)[:100])
+        out.append(r)
+    for i, fmt, cls, d, b2 in held:
+        r = dict(i=i, fmt=fmt, why=None)
+        try:
+            late = bytes(cls.marshall_datain(copy.deepcopy(d)))
+            if late != b2:
+                k = next((j for j in range(min(len(late), len(b2))) if late[j] != b2[j]), min(len(late), len(b2)))
+                r["why"] = ("read A, read other responses, write A: the result decoded earlier is rebuilt as %d bytes differing at byte %d "
+                            "from what it was rebuilt as right after decoding (%s vs %s)" % (len(late), k, late[k:k + 4].hex(), b2[k:k + 4].hex()))
+        except Exception as e:  # noqa
+            r["why"] = "read A, read other responses, write A: raised %s: %s" % (type(e).__name__, str(e)[:100])
         out.append(r)
     # TransportIDs and designators on their own
     from pyscsi.pyscsi.scsi_cdb_persistentreservein import PersistentReserveInReadFullStatus as FS
